@@ -57,6 +57,8 @@ ShapeBox == IF shape.k = "ellipse" THEN shape.b ELSE shape.rr[1]
 Region == PointsOf(Grow(BoxOf(SA), 1)) \cup PointsOf(Grow(ShapeBox, 1))
 Expected == ExpectedPaint(st, { p \in Region : InFill(p) }, { p \in Region : InStroke(p) })
 PaintsByTheAreas == Finished => FbAsSet(fb) = Expected
+\* the stepped machine ends in the closed form the trace specification compares the code with (Trace_C06 DRIFT)
+MachineIsClosedForm == Finished => FbAsSet(fb) = StyledMapT(shape.k, IF shape.k = "ellipse" THEN shape.b ELSE shape.rr, st, route)
 \* each row is painted left to right without overlap: stroke | fill | stroke
 RowsOrdered == \A y \in RowsBox[2]..(RowsBox[2] + NRows - 1) :
   (~PlainFill) => LET r == StyledRow(y) IN (r[2] < r[3]) => (r[2] <= r[4] /\ r[4] <= r[5] /\ r[5] <= r[3])
